@@ -18,6 +18,14 @@ CLAIMS = {
             "Decides for EVERY test of NO_UNKNOWN_OPS / CANONICAL_INTS / DISABLE_OP / LIMIT_SOFTFORK / LIMITS in the library that the flag can only reject, that RELAXED_BLS only removes validation, that MEMPOOL_MODE is made of restriction flags, and that no caller turns a flag-caused error into a success. One audited exception (uint_atom) and one known finding (softfork argument errors swallowed in lenient mode).",
             "Trusts rustc's MIR and the purity whitelist of callee names used inside conditions; LIMIT_HEAP is a caller-chosen allocator parameter (monotone by C13).",
             "DESIGN.md 4/C07"),
+    "C08": ("constant relation between each 4-byte opcode and the cost its native operator charges (extracted from the dispatch switch and the operator's return), no-allocation / nil-result rule, region analysis of the not-understood softfork path, shared restore-coverage rule",
+            "Decides the structural necessary conditions of soft-fork safety: native 4-byte operators charge exactly the unknown-operator cost of their opcode, are keyed by all 32 bits, yield nil and never touch the allocator; a softfork call that is not understood yields nil for exactly the declared cost without a guard or checkpoint; a full restore resets every count. With C31 (understood guards) both sides charge the declared cost, yield nil and leave the counts as at entry. Not equality for arbitrary programs inside a guard.",
+            "Trusts rustc's MIR; the cryptographic accept/reject decision of the native operators is C32 (not applicable).",
+            "DESIGN.md 4/C08"),
+    "C14": ("who-may-write rule over every &mut use of the three storage vectors in the crate, threshold-table extraction for the canonical-integer encoders, byte-test normal forms, sibling comparison of the two bignum encoders, trait-impl call inventory for Atom, compile-fail witnesses with compiling twins (thorough tier)",
+            "Decides: storage is append/truncate-only everywhere in the crate (no overwrite), truncation only to recorded lengths; the k-byte rows of len_for_value/new_u64/new_i64 end at 2^(8k-1); small-atom bounds tied to the 26-bit mask; every byte test is a sign/zero/bound test; Atom Hash/Eq/Borrow/Deref go through the bytes; atom_eq/bytes_eq_int compare by canonical bytes. Thorough: 5 compile-fail witnesses + 5 twins (borrow blocks allocation, Atom read-only, private storage, NodePtr not forgeable).",
+            "Trusts rustc (MIR and borrow checker). `small_number <=> minimal encoding below 2^26` beyond the table rows and read-back of stored integers are arithmetic facts not decided.",
+            "DESIGN.md 4/C14"),
     "C09": ("dominance / ordering rules inside op_unknown, checked-arithmetic rule on the multiplier, constant-set comparison with sibling operators, who-may-call + flag-region routing rule",
             "Decides the structural clauses of the unknown-operator rule: rejection order (reserved first), 4-byte multiplier cap, selector bits, base compared with the budget before multiplying, overflow-checked multiplication in BOTH cost models, 32-bit cap dominating the only Ok(nil), sibling cost constants, and that op_unknown is reachable only through the lenient unknown-operator paths with unchanged arguments. Known finding: classic model uses wrapping_mul.",
             "Trusts rustc's MIR; the numeric value of the add/mul/concat-like formulas is not decided (only which constants they read).",
